@@ -110,7 +110,11 @@ theorem pi_readQ (hdp : c.qp.drainPublish = true) (table : List (Nat × Nat × L
                 · exact hsR.t j
               · unfold readOneU; dsimp only; split <;> exact h.cfg
             have h3 := (hnote (uRead s.cfg u.follow ((s.th i).more.length + 1) (s.th i)).2.2 _ hstep).1
-            have h4 := GI.runInjU (tx_closed u (some i)) table _ 3 h3
+            have h4 := GI.runInjU (tx_closed u (some i)) table _ 3 (show GI (Tx (some i)) c (fmtNote _ st) by
+              unfold fmtNote
+              split
+              · exact h3.aux rfl rfl rfl
+              · exact h3)
             split
             · exact pi_readQ hdp table _ i qcap0 fuel _ _ h4 (fun h0 => by omega)
             · exact pi_commit hdp h4
